@@ -142,7 +142,7 @@ def mk_bin(op, ty, a, b):
         return mk_bin("udiv", ty, a[3], C(bits, a[4][2] << b[2]))          # (x / c) >> k == x / (c * 2^k), unsigned
     if bits and op == "udiv" and is_c(b) and b[2] > 0 and a[0] == "op" and a[1] == "udiv" and is_c(a[4]) and a[4][2] * b[2] < (1 << bits):
         return mk_bin("udiv", ty, a[3], C(bits, a[4][2] * b[2]))           # (x / c1) / c2 == x / (c1 * c2), unsigned
-    if bits and op == "udiv" and is_c(b) and b[2] > 0 and a[0] == "op" and a[1] == "lshr" and is_c(a[4]) and (b[2] << a[4][2]) < (1 << bits):
+    if bits and op == "udiv" and is_c(b) and b[2] > 0 and a[0] == "op" and a[1] == "lshr" and is_c(a[4]) and a[4][2] < bits and (b[2] << a[4][2]) < (1 << bits):
         return mk_bin("udiv", ty, a[3], C(bits, b[2] << a[4][2]))
     if bits and op == "sdiv" and is_c(b) and sval(b) > 0 and a[0] == "op" and a[1] == "sdiv" and is_c(a[4]) and sval(a[4]) > 0 and sval(a[4]) * sval(b) < (1 << (bits - 1)):
         return mk_bin("sdiv", ty, a[3], C(bits, sval(a[4]) * sval(b)))     # truncating division by positive constants composes
@@ -401,20 +401,20 @@ def mk_cast(op, ty, a, ty2):
         return mk_cast(a[1], a[2], a[4], ty2)
     if op == "trunc" and a[0] == "cast" and a[1] in ("zext", "sext", "trunc") and b2 and _bits(a[2]) and _bits(a[2]) > b2:
         return mk_cast("trunc", a[2], a[4], ty2)
-    if op == "sext" and b1 and b2 and a[0] == "op" and a[1] == "shl" and is_c(a[4]) and a[4][2] < b1:
+    if op == "sext" and b1 and b2 and b2 <= 128 and a[0] == "op" and a[1] == "shl" and is_c(a[4]) and a[4][2] < b1:
         # a narrow left shift that cannot overflow (the operand's assumed range, shifted, stays inside the narrow type)
         # is the wide left shift of the extended operand
         rr = _range(a[3])
         if rr is not None and -(1 << (b1 - 1)) <= (rr[0] << a[4][2]) and (rr[1] << a[4][2]) < (1 << (b1 - 1)):
             return mk_bin("shl", ty2, mk_cast("sext", ty, a[3], ty2), C(b2, a[4][2]))
-    if op == "sext" and b1 and b2 and a[0] == "op" and a[1] in ("add", "sub", "mul") and _range(a) is not None and _range(a[3]) is not None and _range(a[4]) is not None:
+    if op == "sext" and b1 and b2 and b2 <= 128 and a[0] == "op" and a[1] in ("add", "sub", "mul") and _range(a) is not None and _range(a[3]) is not None and _range(a[4]) is not None:
         # the narrow operation cannot wrap on the assumed operand ranges: extending its result is operating on the extended operands
         return mk_bin(a[1], ty2, mk_cast("sext", ty, a[3], ty2), mk_cast("sext", ty, a[4], ty2))
-    if op == "sext" and b1 and b2 and a[0] == "op" and a[1] == "sdiv" and is_c(a[4]) and sval(a[4]) not in (0, -1):
+    if op == "sext" and b1 and b2 and b2 <= 128 and a[0] == "op" and a[1] == "sdiv" and is_c(a[4]) and sval(a[4]) not in (0, -1):
         return mk_bin("sdiv", ty2, mk_cast("sext", ty, a[3], ty2), C(b2, sval(a[4])))      # a quotient never leaves the dividend's range
-    if op == "zext" and b1 and b2 and a[0] == "op" and a[1] in ("udiv", "lshr") and is_c(a[4]) and a[4][2] != 0:
+    if op == "zext" and b1 and b2 and b2 <= 128 and a[0] == "op" and a[1] in ("udiv", "lshr") and is_c(a[4]) and a[4][2] != 0:
         return mk_bin(a[1], ty2, mk_cast("zext", ty, a[3], ty2), C(b2, a[4][2]))
-    if op == "zext" and b1 and b2 and a[0] == "op" and a[1] in ("add", "mul"):
+    if op == "zext" and b1 and b2 and b2 <= 128 and a[0] == "op" and a[1] in ("add", "mul"):
         r3, r4 = _range(a[3]), _range(a[4])
         if r3 is not None and r4 is not None and r3[0] >= 0 and r4[0] >= 0:
             top = r3[1] * r4[1] if a[1] == "mul" else r3[1] + r4[1]
